@@ -42,25 +42,25 @@ def check(ctx):
     repo = ctx.repo
     pf, loop = tag_loop(ctx, "R16.1")
     info = tag_regex_info(pf, loop, "R16.1")
-    r16_1(ctx, pf, loop, info)
-    r16_2(ctx, pf, loop)
-    r16_3_6(ctx, pf, loop, info)
+    ctx.run(r16_1, pf, loop, info)
+    ctx.run(r16_2, pf, loop)
+    ctx.run(r16_3_6, pf, loop, info)
     schema, extras, ems = emit.find_emitters(ctx, "R16.4")
     ctx.require_count("R16.4", len(ems), 6, "gaftools/", "record emitters (12-column templates fed from a parsed record)")
     key_colon = relang.all_end_with(key_group_items(info), ":")
     for f, rec, n in ems:
         ctx.analysed_func(f)
         r16_4(ctx, f, rec, n, extras, schema, key_colon)
-    r16_5(ctx, extras, schema)
-    r16_7(ctx, schema, extras)
-    r16_8(ctx, extras)
+    ctx.run(r16_5, extras, schema)
+    ctx.run(r16_7, schema, extras)
+    ctx.run(r16_8, extras)
     ctx.not_decided.append("trailing blanks of the last optional field are removed by rstrip() before splitting (observation, outside the armed rules)")
     # mechanisms this property rests on (see shared.py): a change there is reported here as well
     from . import shared as _sh
 
-    _sh.gaf_reader(ctx)
-    _sh.cli_layer(ctx, "gaftools.cli.view")
-    _sh.cli_layer(ctx, "gaftools.cli.realign")
+    ctx.run(_sh.gaf_reader)
+    ctx.run(_sh.cli_layer, "gaftools.cli.view")
+    ctx.run(_sh.cli_layer, "gaftools.cli.realign")
 
 
 # ---------------------------------------------------------------------------------------------
